@@ -415,19 +415,24 @@ def root_header(roots):
 
 
 def evaluate(kc, lc, wc, roots, name, mc=None):
+    """Evaluate the four case families inside Coq (in parallel)."""
+    from concurrent.futures import ThreadPoolExecutor
+    jobs = []
+    if mc:
+        jobs.append(lambda: coq_check("C08", HEADER, "mcase", [mcase_to_coq(c) for c in mc], {"magree": "mcase_agrees", "moracle": "mcase_oracle"}, name=name + "_m"))
+    if kc:
+        jobs.append(lambda: coq_check("C08", root_header(roots), "kcase", [kcase_to_coq(c) for c in kc], {"kagree": "kcase_agrees", "koracle": "kcase_oracle"}, name=name + "_k"))
+    if lc:
+        jobs.append(lambda: coq_check("C08", HEADER, "lcase", [lcase_to_coq(c) for c in lc], {"lagree": "lcase_agrees"}, name=name + "_l"))
+    if wc:
+        jobs.append(lambda: coq_check("C08", HEADER, "wcase", [wcase_to_coq(c) for c in wc], {"wagree": "wcase_agrees", "woracle": "wcase_oracle"}, name=name + "_w"))
     r = {}
+    with ThreadPoolExecutor(max_workers=4) as ex:
+        for x in [f.result() for f in [ex.submit(j) for j in jobs]]:
+            r.update(x)
     if mc:
         # the model comparison needs the planted files: skip it for accepted keys that resolve to a directory (e.g. the root itself)
-        full = [i for i, c in enumerate(mc) if c["plantable"] or c["resolved"] is None]
-        x = coq_check("C08", HEADER, "mcase", [mcase_to_coq(mc[i]) for i in full], {"magree": "mcase_agrees"}, name=name + "_m")
-        r["magree"] = [full[i] for i in x["magree"]]
-        r.update(coq_check("C08", HEADER, "mcase", [mcase_to_coq(c) for c in mc], {"moracle": "mcase_oracle"}, name=name + "_mo"))
-    if kc:
-        r.update(coq_check("C08", root_header(roots), "kcase", [kcase_to_coq(c) for c in kc], {"kagree": "kcase_agrees", "koracle": "kcase_oracle"}, name=name + "_k"))
-    if lc:
-        r.update(coq_check("C08", HEADER, "lcase", [lcase_to_coq(c) for c in lc], {"lagree": "lcase_agrees"}, name=name + "_l"))
-    if wc:
-        r.update(coq_check("C08", HEADER, "wcase", [wcase_to_coq(c) for c in wc], {"wagree": "wcase_agrees", "woracle": "wcase_oracle"}, name=name + "_w"))
+        r["magree"] = [i for i in r["magree"] if mc[i]["plantable"] or mc[i]["resolved"] is None]
     for k in ("kagree", "koracle", "lagree", "wagree", "woracle", "magree", "moracle"):
         r.setdefault(k, [])
     return r
